@@ -135,19 +135,20 @@ def main(argv: Optional[List[str]] = None) -> int:
                 buffer = sys.stdout.buffer
             else:
                 buffer = sys.stdout
-            for pickled in stacked_pickled[: args.inject_target]:
-                pickled.dump(buffer)
             pickled = stacked_pickled[args.inject_target]
             if not isinstance(pickled[-1], fickle.Stop):
                 sys.stderr.write(
                     "Warning: The last opcode of the input file was expected to be STOP, but was "
                     f"in fact {pickled[-1].info.name}"
                 )
+            # Inject before anything is written: if the injection fails, nothing is emitted
             pickled.insert_python_eval(
                 args.inject,
                 run_first=not args.run_last,
                 use_output_as_unpickle_result=args.replace_result,
             )
+            for before in stacked_pickled[: args.inject_target]:
+                before.dump(buffer)
             pickled.dump(buffer)
             for pickled in stacked_pickled[args.inject_target + 1 :]:
                 pickled.dump(buffer)
